@@ -7,6 +7,8 @@ package main
 //     functions queue up (the list grows past the capacity at which the drainer
 //     replaces it when it catches up); after the drain later functions must
 //     still run - exactly once, in order.
+//   - async-churn: many producers, functions that do nothing: the drainer exits and
+//     restarts thousands of times per case (every exit is a hand-over).
 //   - fork-burst: many submitters leave a spin barrier at the same instant and
 //     call Go on an idle, small pool with tasks that block until the round is
 //     released; the number of tasks running at once must not exceed the bound.
@@ -33,6 +35,10 @@ func genExtra(r *h.Run, kind string, i int) caseT {
 		c.Variant = "timer"
 		c.Tasks = []int{300, 1100, 3000, 6000}[rng.Intn(4)] // below and above the 1024-capacity threshold
 		c.Submitters = 1 + rng.Intn(4)
+	case "async-churn":
+		c.Variant = "timer"
+		c.Submitters = 4 + rng.Intn(13)
+		c.Tasks = r.N(2000, 6000) // functions per producer
 	case "fork-burst":
 		c.Variant = "default"
 		c.N = []int{2, 3, 4, 6, 8}[rng.Intn(5)]
@@ -118,6 +124,72 @@ func runAsyncBacklog(r *h.Run, c caseT) {
 	r.Count("async_backlog_functions", queued)
 	r.Seen("async_backlog_sizes", fmt.Sprint(c.Tasks))
 	r.Nontrivial(fmt.Sprintf("async-backlog/%d", c.Index))
+}
+
+// runAsyncChurn: many producers pass functions that do nothing to a queue that keeps running
+// empty, so the drainer exits and is restarted thousands of times per case - every hand-over
+// between "the drainer found nothing and leaves" and "a producer appended and did not start a
+// drainer because the list was not empty" is a chance to strand a function. Exactly once, decided
+// in the final state.
+func runAsyncChurn(r *h.Run, c caseT) {
+	t := timer.New("vc19")
+	n := c.Submitters * c.Tasks
+	runs := make([]atomic.Int32, n)
+	var ran atomic.Int64
+	var wg sync.WaitGroup
+	gate := make(chan struct{})
+	for s := 0; s < c.Submitters; s++ {
+		wg.Add(1)
+		go func(s int) {
+			defer wg.Done()
+			rng := r.Rand(fmt.Sprintf("c19/async-churn/%d", s), c.Index)
+			<-gate
+			for k := 0; k < c.Tasks; k++ {
+				id := s*c.Tasks + k
+				t.Async(func() {
+					runs[id].Add(1)
+					ran.Add(1)
+				})
+				switch rng.Intn(8) {
+				case 0:
+					runtime.Gosched()
+				case 1:
+					for x := 0; x < rng.Intn(200); x++ {
+						_ = x
+					}
+				}
+			}
+		}(s)
+	}
+	close(gate)
+	wg.Wait()
+	ok, decided := waitDone(func() bool { return ran.Load() >= int64(n) }, func() int64 { return ran.Load() })
+	if !decided {
+		r.Inconclusive("async-churn: neither complete nor a stable stuck state")
+		return
+	}
+	lost, twice, first := 0, 0, -1
+	for i := range runs {
+		switch v := runs[i].Load(); {
+		case v == 0:
+			lost++
+			if first < 0 {
+				first = i
+			}
+		case v > 1:
+			twice++
+		}
+	}
+	if twice > 0 {
+		r.Violate("c19:timer-async:churn:double-run", fmt.Sprintf("%d of %d functions passed to Async by %d producers ran more than once", twice, n, c.Submitters), c)
+		return
+	}
+	if !ok || lost > 0 {
+		r.Violate("c19:timer-async:churn:function-lost", fmt.Sprintf("%d producers passed %d functions to Async, %d never ran (first: function %d of producer %d); stuck state: all producers returned, no function ran over >= 20 samples / >= 2 s of idle CPU", c.Submitters, n, lost, first%c.Tasks, first/c.Tasks), c)
+		return
+	}
+	r.Count("async_churn_functions", int64(n))
+	r.Nontrivial(fmt.Sprintf("async-churn/%d", c.Index))
 }
 
 func runForkBurst(r *h.Run, c caseT) {
